@@ -175,6 +175,70 @@ def check_unevaluable(ctx, doc, toks, why):
     ctx.case(h(canon(doc), text))
 
 
+def _retag(v, tag):
+    if isinstance(v, dict):
+        return {k: _retag(x, tag) for k, x in v.items()}
+    if isinstance(v, list):
+        return [_retag(x, tag) for x in v]
+    return "%s@%s" % (v, tag) if isinstance(v, (str, int, float)) and not isinstance(v, bool) else v
+
+
+def pointer_object_reuse(ctx, doc, allnodes):
+    """ONE pointer object resolved against several documents of the same shape whose leaves carry different tags, in
+    turn, after an in-place update, after the earlier documents are gone (their ids free to be reused), and from 8
+    threads at once: the value must always be the one found in the document given to that call."""
+    from jsonpath import JSONPointer
+
+    from rt.threads import stress
+
+    r = ctx.rng
+    picks = r.sample(allnodes, min(len(allnodes), 4))
+    for loc, _val in picks:
+        toks = rp.tokens_of(loc)
+        text = rp.encode(toks)
+        if "\\" in text:
+            continue
+        c = impl.call(JSONPointer, text)
+        if not c.ok:
+            continue
+        p = c.value
+        case = {"doc": doc, "pointer": text, "expect": "reuse"}
+        for k in range(6):
+            d = _retag(doc, "d%d" % k)
+            want = rp.resolve(d, toks)
+            o = impl.call(p.resolve, d)
+            ctx.count("reused_pointer_object_resolutions")
+            if not o.ok or not same(o.value, want):
+                ctx.violation("reused-pointer-object-resolves-against-another-document", case, {"pointer": text, "use": k, "got": o.desc() if not o.ok else canon(o.value)[:80], "expected": canon(want)[:80]})
+                return
+            if toks and k % 2:
+                par = rp.resolve(d, toks[:-1])
+                key = toks[-1] if isinstance(par, dict) else int(toks[-1])
+                par[key] = "updated-in-place-%d" % k
+                o2 = impl.call(p.resolve, d)
+                if not o2.ok or o2.value != "updated-in-place-%d" % k:
+                    ctx.violation("reused-pointer-object-ignores-an-in-place-update", case, {"pointer": text, "got": o2.desc() if not o2.ok else canon(o2.value)[:80]})
+                    return
+            del d
+        errors = []
+
+        def worker(wid, rr):
+            for k in range(5):
+                d = _retag(doc, "w%dk%d" % (wid, k))
+                want = rp.resolve(d, toks)
+                o = impl.call(p.resolve, d)
+                e = impl.call(p.exists, d)
+                if not o.ok or not same(o.value, want) or not e.ok or e.value is not True:
+                    errors.append({"pointer": text, "thread": wid, "got": o.desc() if not o.ok else canon(o.value)[:80], "expected": canon(want)[:80]})
+        if r.random() < 0.15:
+            st = stress(worker, nthreads=8, files=("pointer.py",), seed=r.random(), prob=0.1)
+            ctx.count("concurrent_resolutions_of_one_pointer_object", 40)
+            ctx.count("yields_injected", st["yields"])
+            for e in errors[:1]:
+                ctx.violation("pointer-object-shared-by-threads-resolves-against-another-document", case, e)
+                return
+
+
 def text_document_history(ctx, doc, allnodes):
     """The document supplied as JSON text: what comes back belongs to the caller, who may change
     it (or patch the same text) before resolving against the same text again.  Every resolution
@@ -305,6 +369,8 @@ def run(spec, ctx):
                     continue  # evaluable
                 except rp.Unresolvable as e:
                     check_unevaluable(ctx, doc, m, str(e))
+        if i % 3 == 0 and allnodes:
+            pointer_object_reuse(ctx, doc, allnodes)
         if i % 6 == 0:
             text_document_history(ctx, doc, allnodes)
         if i % 40 == 0 and allnodes:
